@@ -25,8 +25,8 @@ VERIF = os.path.dirname(os.path.dirname(os.path.dirname(os.path.abspath(__file__
 LEAN_ROOT = os.path.join(VERIF, "lean", "OFCore")
 BIN = os.path.join(LEAN_ROOT, ".lake", "build", "bin")
 REPO = os.environ.get("OFV_REPO", "/repo")
-SEARCH_SECONDS = {"quick": 240, "thorough": 1800}    # time budget of the failing-input search
-ESCALATE_SECONDS = {"quick": int(os.environ.get("OFV_ESCALATE_SECONDS", "240")), "thorough": 1200}   # extra budget when the
+SEARCH_SECONDS = {"quick": 180, "thorough": 1800}    # time budget of the failing-input search
+ESCALATE_SECONDS = {"quick": int(os.environ.get("OFV_ESCALATE_SECONDS", "150")), "thorough": 1200}   # extra budget when the
                                                        # anchored source no longer reads as recorded (srcmap.py)
 ALLOWED_AXIOMS = {"propext", "Classical.choice", "Quot.sound"}
 FORBIDDEN = re.compile(r"\bsorry\b|\badmit\b|^\s*axiom\s|native_decide|bv_decide|implemented_by|\bunsafe\s|maxHeartbeats\s+0\b|reduceBool|ofReduceBool")
